@@ -8,8 +8,8 @@ parser relies on:
 
  * the table known after token `j` (`(st (j+1)).lines`) is a prefix of the final table as far as start indices and indentations
    go (`LineText` of the last known line is still nil at that moment, which the parser never reads);
- * token `j` lies on the LAST line known at that moment: it starts at or after that line's start and ends before the next line of
-   the final table starts;
+ * token `j` ENDS on the LAST line known at that moment (before the next line of the final table starts) and STARTS on line
+   `sline j` (the same line, unless the token is a text literal that spans lines), at or after the last line known before it;
  * line starts increase strictly.
 
 Proofs/RenderLex*.lean builds the `Run` of a canonical rendering; Proofs/LexSim*.lean proves that the parser model driven by the
@@ -39,8 +39,15 @@ structure Run (Y : Layout) where
   pre : ∀ j i, i < (st (j + 1)).lines.size →
     (st (j + 1)).lines[i]?.map (·.startIdx) = Y.lines[i]?.map (·.startIdx) ∧
     (st (j + 1)).lines[i]?.map (·.indents) = Y.lines[i]?.map (·.indents)
-  /-- token `j` lies on the last line known after it has been read -/
-  onLast : ∀ j (a : LineInfo), Y.lines[(st (j + 1)).lines.size - 1]? = some a → a.startIdx ≤ (tk j).startIdx
+  /-- the line token `j` starts on -/
+  sline : Nat → Nat
+  sline_lt : ∀ j, sline j < (st (j + 1)).lines.size
+  /-- a token starts at or after the last line known when the token before it had been read -/
+  sline_ge : ∀ j, (st (j + 1)).lines.size - 1 ≤ sline (j + 1)
+  onStart : ∀ j (a : LineInfo), Y.lines[sline j]? = some a → a.startIdx ≤ (tk j).startIdx
+  beforeNextStart : ∀ j (b : LineInfo), Y.lines[sline j + 1]? = some b → (tk j).startIdx < b.startIdx
+  /-- token `j` ends on the last line known after it has been read -/
+  onLast : ∀ j (a : LineInfo), Y.lines[(st (j + 1)).lines.size - 1]? = some a → a.startIdx ≤ (tk j).endIdx
   span : ∀ j, (tk j).startIdx ≤ (tk j).endIdx
   beforeNext : ∀ j (b : LineInfo), Y.lines[(st (j + 1)).lines.size]? = some b → (tk j).endIdx < b.startIdx
 
